@@ -6,10 +6,14 @@ import (
 	"crypto/ecdsa"
 	"crypto/elliptic"
 	"crypto/rsa"
+	"crypto/x509"
+	"encoding/pem"
 	"fmt"
 	"math/big"
 	"net"
 	"reflect"
+	"sort"
+	"strings"
 	"sync/atomic"
 
 	"github.com/ovh/kmip-go"
@@ -154,7 +158,7 @@ type pubEqualer interface{ Equal(x crypto.PublicKey) bool }
 func runC14(c *vlib.Check) {
 	c.Rule = "part 1: deterministically built keys — EC private scalars from the boundary alphabet restricted to [1, n-1] (leading 0x00 / 0x80 / 0x7F bytes, 2^(8k)±1, n-1, ...) on P-224/256/384/521, " +
 		"RSA keys of 1024 and 2048 bits assembled from primes found by deterministic search, symmetric keys and secrets of lengths 0..33 — x every register format the builder offers " +
-		"(PKCS#1, PKCS#8, SEC1, X.509 SPKI, transparent RSA/ECDSA/EC, raw, transparent symmetric, generic PrivateKey/PublicKey entry points) x client versions 1.0..1.4 x {binary, XML, JSON}: " +
+		"(PKCS#1, PKCS#8, SEC1, X.509 SPKI, transparent RSA/ECDSA/EC, raw, transparent symmetric) and, for 3 scalars per curve and 2 RSA keys, every other register entry point (PrivateKey / PublicKey, Pkcs1/Pkcs8/Sec1 DER, X.509 DER, PemKey / PemPrivateKey / PemPublicKey with every PEM block type, SecretString), read back with PrivateKey/PublicKey and PemPrivateKey/PemPublicKey x client versions 1.0..1.4 x {binary, XML, JSON}: " +
 		"builder -> Register request -> wire -> object -> Get response -> wire -> accessors, compared with Equal. " +
 		"part 3: the same keys, two per session, through a real connection (kmipclient and a scripted key server, both over ttlv.Stream on an in-memory pipe): Register A, Register B, Get A, Get B, then the accessors on both held responses. " +
 		"part 2: every object type x key format x {key value absent, wrapped, plain} x every subset of optional parts missing (2^7 subsets of the optional RSA integers, material absent, attributes absent) " +
@@ -293,6 +297,183 @@ func runC14(c *vlib.Check) {
 					return nil
 				}})
 		}
+	}
+	// the other register entry points (generic, DER and PEM inputs), which parse their input and delegate
+	type anyPriv interface {
+		Public() crypto.PublicKey
+		Equal(x crypto.PrivateKey) bool
+	}
+	checkPriv := func(k anyPriv) func(gp *payloads.GetResponsePayload) error {
+		return func(gp *payloads.GetResponsePayload) error {
+			got, err := gp.PrivateKey()
+			if err != nil {
+				return fmt.Errorf("PrivateKey: %w", err)
+			}
+			if !k.Equal(got) {
+				return fmt.Errorf("PrivateKey() differs")
+			}
+			txt, err := gp.PemPrivateKey()
+			if err != nil {
+				return fmt.Errorf("PemPrivateKey: %w", err)
+			}
+			blk, _ := pem.Decode([]byte(txt))
+			if blk == nil {
+				return fmt.Errorf("PemPrivateKey: not PEM: %q", short(txt, 60))
+			}
+			var back crypto.PrivateKey
+			switch blk.Type {
+			case "RSA PRIVATE KEY":
+				back, err = x509.ParsePKCS1PrivateKey(blk.Bytes)
+			case "EC PRIVATE KEY":
+				back, err = x509.ParseECPrivateKey(blk.Bytes)
+			case "PRIVATE KEY":
+				back, err = x509.ParsePKCS8PrivateKey(blk.Bytes)
+			default:
+				return fmt.Errorf("PemPrivateKey: unexpected block type %q", blk.Type)
+			}
+			if err != nil {
+				return fmt.Errorf("PemPrivateKey output does not parse: %w", err)
+			}
+			if !k.Equal(back) {
+				return fmt.Errorf("PemPrivateKey() differs")
+			}
+			return nil
+		}
+	}
+	type anyPub interface{ Equal(x crypto.PublicKey) bool }
+	checkPub := func(k anyPub) func(gp *payloads.GetResponsePayload) error {
+		return func(gp *payloads.GetResponsePayload) error {
+			got, err := gp.PublicKey()
+			if err != nil {
+				return fmt.Errorf("PublicKey: %w", err)
+			}
+			if !k.Equal(got) {
+				return fmt.Errorf("PublicKey() differs")
+			}
+			txt, err := gp.PemPublicKey()
+			if err != nil {
+				return fmt.Errorf("PemPublicKey: %w", err)
+			}
+			blk, _ := pem.Decode([]byte(txt))
+			if blk == nil {
+				return fmt.Errorf("PemPublicKey: not PEM: %q", short(txt, 60))
+			}
+			var back crypto.PublicKey
+			switch blk.Type {
+			case "RSA PUBLIC KEY":
+				back, err = x509.ParsePKCS1PublicKey(blk.Bytes)
+			case "PUBLIC KEY":
+				back, err = x509.ParsePKIXPublicKey(blk.Bytes)
+			default:
+				return fmt.Errorf("PemPublicKey: unexpected block type %q", blk.Type)
+			}
+			if err != nil {
+				return fmt.Errorf("PemPublicKey output does not parse: %w", err)
+			}
+			if !k.Equal(back) {
+				return fmt.Errorf("PemPublicKey() differs")
+			}
+			return nil
+		}
+	}
+	pemOf := func(typ string, der []byte) []byte { return pem.EncodeToMemory(&pem.Block{Type: typ, Bytes: der}) }
+	addEntryPoints := func(label string, priv anyPriv, pub anyPub, ders map[string][]byte) {
+		type ep struct {
+			n string
+			b func(ex kmipclient.ExecRegisterWantType) kmipclient.ExecRegister
+			p bool // registers the private key
+		}
+		eps := []ep{
+			{"PrivateKey(key)", func(ex kmipclient.ExecRegisterWantType) kmipclient.ExecRegister { return ex.PrivateKey(priv, usage) }, true},
+			{"PublicKey(key)", func(ex kmipclient.ExecRegisterWantType) kmipclient.ExecRegister {
+				return ex.PublicKey(priv.Public(), kmip.CryptographicUsageVerify)
+			}, false},
+		}
+		for typ, der := range ders {
+			typ, der := typ, der
+			private := strings.Contains(typ, "PRIVATE")
+			switch typ {
+			case "RSA PRIVATE KEY":
+				eps = append(eps, ep{"Pkcs1PrivateKey(der)", func(ex kmipclient.ExecRegisterWantType) kmipclient.ExecRegister {
+					return ex.Pkcs1PrivateKey(der, usage)
+				}, true})
+			case "EC PRIVATE KEY":
+				eps = append(eps, ep{"Sec1PrivateKey(der)", func(ex kmipclient.ExecRegisterWantType) kmipclient.ExecRegister { return ex.Sec1PrivateKey(der, usage) }, true})
+			case "PRIVATE KEY":
+				eps = append(eps, ep{"Pkcs8PrivateKey(der)", func(ex kmipclient.ExecRegisterWantType) kmipclient.ExecRegister {
+					return ex.Pkcs8PrivateKey(der, usage)
+				}, true})
+			case "RSA PUBLIC KEY":
+				eps = append(eps, ep{"Pkcs1PublicKey(der)", func(ex kmipclient.ExecRegisterWantType) kmipclient.ExecRegister {
+					return ex.Pkcs1PublicKey(der, kmip.CryptographicUsageVerify)
+				}, false})
+			case "PUBLIC KEY":
+				eps = append(eps, ep{"X509PublicKey(der)", func(ex kmipclient.ExecRegisterWantType) kmipclient.ExecRegister {
+					return ex.X509PublicKey(der, kmip.CryptographicUsageVerify)
+				}, false})
+			}
+			eps = append(eps, ep{"PemKey(" + typ + ")", func(ex kmipclient.ExecRegisterWantType) kmipclient.ExecRegister {
+				return ex.PemKey(pemOf(typ, der), usage)
+			}, private})
+			if private {
+				eps = append(eps, ep{"PemPrivateKey(" + typ + ")", func(ex kmipclient.ExecRegisterWantType) kmipclient.ExecRegister {
+					return ex.PemPrivateKey(pemOf(typ, der), usage)
+				}, true})
+			}
+			// PemPublicKey also accepts a private key and registers its public part
+			eps = append(eps, ep{"PemPublicKey(" + typ + ")", func(ex kmipclient.ExecRegisterWantType) kmipclient.ExecRegister {
+				return ex.PemPublicKey(pemOf(typ, der), kmip.CryptographicUsageVerify)
+			}, false})
+		}
+		sort.Slice(eps, func(i, j int) bool { return eps[i].n < eps[j].n })
+		for _, e := range eps {
+			e := e
+			ck := checkPub(pub)
+			if e.p {
+				ck = checkPriv(priv)
+			}
+			cases = append(cases, keyCase{label + " via " + e.n, func(cl *kmipclient.Client) kmipclient.ExecRegister { return e.b(cl.Register()) }, ck})
+		}
+	}
+	for _, cv := range curves {
+		ds := ecScalars(cv, thorough)
+		for _, d := range []*big.Int{ds[0], ds[len(ds)/2], ds[len(ds)-1]} {
+			k := ecKey(cv, d)
+			sec1, err1 := x509.MarshalECPrivateKey(k)
+			p8, err2 := x509.MarshalPKCS8PrivateKey(k)
+			pkix, err3 := x509.MarshalPKIXPublicKey(&k.PublicKey)
+			if err1 != nil || err2 != nil || err3 != nil {
+				panic(fmt.Sprint("c14: cannot marshal EC key: ", err1, err2, err3))
+			}
+			addEntryPoints(fmt.Sprintf("ECDSA %s d=0x%x", cv.Params().Name, d), k, &k.PublicKey, map[string][]byte{"EC PRIVATE KEY": sec1, "PRIVATE KEY": p8, "PUBLIC KEY": pkix})
+		}
+	}
+	for _, rs := range rsaSpecs[:2] {
+		k := rsaKey(rs.bits, rs.topP, rs.topQ, rs.e)
+		p8, err2 := x509.MarshalPKCS8PrivateKey(k)
+		pkix, err3 := x509.MarshalPKIXPublicKey(&k.PublicKey)
+		if err2 != nil || err3 != nil {
+			panic(fmt.Sprint("c14: cannot marshal RSA key: ", err2, err3))
+		}
+		addEntryPoints(fmt.Sprintf("RSA-%d p0=%02X q0=%02X e=%d", rs.bits, rs.topP, rs.topQ, rs.e), k, &k.PublicKey, map[string][]byte{
+			"RSA PRIVATE KEY": x509.MarshalPKCS1PrivateKey(k), "PRIVATE KEY": p8, "RSA PUBLIC KEY": x509.MarshalPKCS1PublicKey(&k.PublicKey), "PUBLIC KEY": pkix})
+	}
+	for _, str := range []string{"", "p", "pässword ✓", strings.Repeat("x", 33)} {
+		str := str
+		cases = append(cases, keyCase{fmt.Sprintf("secret string %q", str),
+			func(cl *kmipclient.Client) kmipclient.ExecRegister {
+				return cl.Register().SecretString(kmip.SecretDataTypePassword, str)
+			},
+			func(gp *payloads.GetResponsePayload) error {
+				got, err := gp.SecretString()
+				if err != nil {
+					return fmt.Errorf("SecretString: %w", err)
+				}
+				if got != str {
+					return fmt.Errorf("extracted secret string differs: %q", got)
+				}
+				return nil
+			}})
 	}
 	for l := 0; l <= 33; l++ {
 		key := make([]byte, l)
